@@ -112,9 +112,15 @@ def impl_fn(case):
     skw = {"t_stage": case["t"], "mode": case["mode"]}
     if case["cls"] == "ml":
         skw["central"] = case["central"]
-    call("risk_given_prior", lambda: m.risk(involvement=case["inv"], given_diagnosis=case["diag"],
-                                            given_state_dist=m.state_dist(**skw),
-                                            **({"midext": case["midext"]} if case["cls"] == "ml" else {})))
+    def risk_given_prior_twice():
+        prior = np.array(m.state_dist(**skw), dtype=float)
+        keep = prior.copy()
+        extra = {"midext": case["midext"]} if case["cls"] == "ml" else {}
+        r1 = float(m.risk(involvement=case["inv"], given_diagnosis=case["diag"], given_state_dist=prior, **extra))
+        r2 = float(m.risk(involvement=case["inv"], given_diagnosis=case["diag"], given_state_dist=prior, **extra))
+        same = bool(np.array_equal(prior, keep, equal_nan=True))
+        return [r1, r2, 1.0 if same else 0.0]
+    call("risk_given_prior", risk_given_prior_twice)
     empty = {} if case["cls"] == "uni" else {"ipsi": {}, "contra": {}}
     call("risk_empty", lambda: m.risk(involvement=empty, given_diagnosis=case["diag"], **kw))
     lnl0 = gen.lnls_of(case["graph"])[0]
@@ -246,8 +252,13 @@ def compare(case, obs, val):
             sm = float(np.sum(o["post"][1]))
             if abs(sm - 1) > 1e-9:
                 return {"observable": "posterior sums to one", "actual": sm, "expected": 1}
-        if o["risk_given_prior"][0] == "ok" and abs(float(o["risk_given_prior"][1]) - rv) > 1e-9:
-            return {"observable": "risk(given_state_dist=prior) == risk()", "actual": o["risk_given_prior"][1], "expected": rv}
+        if o["risk_given_prior"][0] == "ok":
+            r1, r2, same = o["risk_given_prior"][1]
+            if abs(r1 - rv) > 1e-9 or abs(r2 - rv) > 1e-9:
+                return {"observable": "risk(given_state_dist=prior) == risk() (same prior array passed twice)",
+                        "actual": [r1, r2], "expected": rv}
+            if same != 1.0:
+                return {"observable": "risk() must not modify the caller's given_state_dist", "actual": "modified", "expected": "unchanged"}
         if o["risk_empty"][0] == "ok" and abs(float(o["risk_empty"][1]) - 1) > 1e-9:
             return {"observable": "risk(empty pattern) == 1", "actual": o["risk_empty"][1], "expected": 1}
         if o["risk_partition"][0] == "ok" and abs(sum(o["risk_partition"][1]) - 1) > 1e-9:
